@@ -117,6 +117,18 @@ theorem norm_injective : ∀ a b : Val, norm a = norm b → ObsEq a b
       have := joinDash_inj _ _ hl hj
       subst this
       exact .objarr _ _
+  | .digest v, b, h => by
+    cases b <;> simp [norm] at h
+    · split at h <;> simp at h
+    · subst h; exact ObsEq.rfl' _
+  | .sortedTokens xs, b, h => by
+    cases b <;> simp [norm] at h
+    · split at h <;> simp at h
+    · subst h; exact ObsEq.rfl' _
+  | .pickled k p, b, h => by
+    cases b <;> simp [norm] at h
+    · split at h <;> simp at h
+    · obtain ⟨rfl, rfl⟩ := h; exact .pickled _ _
 theorem normL_injective : ∀ xs ys : List Val, normL xs = normL ys → ObsEqL xs ys
   | [], ys, h => by cases ys <;> simp [normL] at h; exact .nil
   | x :: xs, ys, h => by
